@@ -48,7 +48,7 @@ let field (impl : string list) (name : string) : string option =
 let verdict_s = function VHolds -> "holds" | VNa -> "na" | VFails -> "fails:-"
 
 (* the model's observation after loading: apply the operations one by one (= Coq [step]) and record which failed *)
-let observe (tx : fixed_tx) (ops : op list) : string * string =
+let observe (impl_bb : string) (tx : fixed_tx) (ops : op list) : string * string =
   let flags = Buffer.create 8 in
   let tx = List.fold_left (fun tx o ->
       match apply_op hid sign_vkey sign_boot o tx with
@@ -57,9 +57,13 @@ let observe (tx : fixed_tx) (ops : op list) : string * string =
       | Panic -> raise Model_panic
       | OutOfFuel -> raise Model_oof) tx ops in
   let e = if Buffer.length flags = 0 then "-" else Buffer.contents flags in
-  (Printf.sprintf "ok b=%s a=%s w=%s t=%s hp=%s e=%s" (hex_of_bytes tx.ft_body)
+  (* body().to_bytes(): the canonical re-encoding, known to the model on the schema-covered sub-stream only
+     (elsewhere the implementation's value is echoed, i.e. not compared) *)
+  let bb = (match body_canonical tx.ft_body with Some c -> hex_of_bytes c | None -> impl_bb) in
+  (Printf.sprintf "ok b=%s a=%s w=%s t=%s hp=%s e=%s v=%d bb=%s sc=-" (hex_of_bytes tx.ft_body)
      (match tx.ft_aux with Some a -> hex_of_bytes a | None -> "~")
-     (hex_of_bytes (encode_wits tx.ft_wits)) (hex_of_bytes (encode_fixed tx)) (hex_of_bytes tx.ft_hash) e, e)
+     (hex_of_bytes (encode_wits tx.ft_wits)) (hex_of_bytes (encode_fixed tx)) (hex_of_bytes tx.ft_hash) e
+     (if tx.ft_valid then 1 else 0) bb, e)
 
 let n_loaded = ref 0 and n_covered = ref 0
 let is_setter = function OSetBody _ | OSetWits _ | OSetAux _ -> true | _ -> false
@@ -89,7 +93,7 @@ let run_tx (load : fixed_tx result) (judge_input : n list option) (optoks : stri
     if impl = ["err"] && not cov then ("skip impl-rejects", "na") else
     let ops = List.map parse_op optoks in
     (try
-      let (m, e) = observe tx ops in
+      let (m, e) = observe (match field impl "bb" with Some x -> x | None -> "?") tx ops in
       match impl with
       | "ok" :: _ ->
         let ie = (match field impl "e" with Some s -> s | None -> "-") in
@@ -102,9 +106,9 @@ let run_tx (load : fixed_tx result) (judge_input : n list option) (optoks : stri
             | Some inp, Some b, Some a, Some w, Some t, Some hp when same_reading inp ->
               let okflags = List.mapi (fun i o -> (o, not (i < String.length ie && ie.[i] = '1'))) ops in
               let o = { o_body = bytes_of_hex b; o_aux = (if a = "~" then None else Some (bytes_of_hex a));
-                        o_wits = bytes_of_hex w; o_tx = bytes_of_hex t;
+                        o_wits = bytes_of_hex w; o_tx = bytes_of_hex t; o_valid = (field impl "v" = Some "1");
                         o_hash_pre = (if String.length hp > 0 && hp.[0] = '?' then None else Some (bytes_of_hex hp)) } in
-              verdict_s (judge inp okflags o)
+              if field impl "sc" <> Some "-" then "fails:-" else verdict_s (judge inp okflags o)
             | _ -> "na" in
           (m, v)
         end
@@ -178,8 +182,31 @@ let run_mode () = run_driver (fun toks impl ->
              verdict_s (judge_datum bs (bytes_of_hex o)
                           (if String.length hp > 0 && hp.[0] = '?' then None else Some (bytes_of_hex hp)))
            | _ -> "na") in
-       (Printf.sprintf "ok o=%s hp=%s" (hex_of_bytes raw) (hex_of_bytes h), v)
+       let v = if field impl "sc" <> Some "-" && v = "holds" then "fails:-" else v in
+       let bb = (match body_canonical raw with Some c -> hex_of_bytes c | None -> (match field impl "bb" with Some x -> x | None -> "?")) in
+       (Printf.sprintf "ok o=%s hp=%s bb=%s sc=-" (hex_of_bytes raw) (hex_of_bytes h) bb, v)
      | Err -> ("err", "na") | Panic -> ("panic", "na") | OutOfFuel -> ("outoffuel", "na"))
+  | "fws" :: hexs :: optoks ->
+    let bs = bytes_of_hex hexs in
+    (match decode_wits bs with
+     | Ok (w, _) ->
+       if impl = ["err"] && not (wits_covered w) then ("skip impl-rejects", "na") else
+       let ops = List.map parse_op optoks in
+       let w' = List.fold_left (fun w o -> match o with OAddVkey x -> add_vkey x w | OAddBoot x -> add_boot x w | _ -> w) w ops in
+       let out = encode_wits w' in
+       (* the judge reads the set as the witness set of a transaction around a tiny body *)
+       let tiny = List.map n_of_int [163; 0; 128; 1; 128; 2; 0] in
+       let frame ws = [n_of_int 132] @ tiny @ ws @ [n_of_int 245; n_of_int 246] in
+       let v = (match field impl "w", item_wf bs with
+           | Some iw, true when same_reading (frame bs) ->
+             let iwb = bytes_of_hex iw in
+             if field impl "sc" <> Some "-" then "fails:-" else
+             verdict_s (judge (frame bs) (List.map (fun o -> (o, true)) ops)
+                          { o_body = tiny; o_aux = None; o_wits = iwb; o_tx = frame iwb; o_valid = true; o_hash_pre = Some tiny })
+           | _ -> "na") in
+       (Printf.sprintf "ok w=%s sc=-" (hex_of_bytes out), v)
+     | Err -> ((if impl <> ["err"] && map_slices bs = None then "skip impl-accepts-illformed" else "err"), "na")
+     | Panic -> ("panic", "na") | OutOfFuel -> ("outoffuel", "na"))
   | ["fbs"; hexs] ->
     let bs = bytes_of_hex hexs in
     (match decode_fixed_bodies hid bs with
@@ -195,7 +222,9 @@ let run_mode () = run_driver (fun toks impl ->
      | Ok (b, _) ->
        if impl = ["err"] then ("skip impl-rejects", "na") else
        let (origs, hq, bh) = block_fields impl in
-       (Printf.sprintf "ok %s bh=%s" (bodies_obs b.fb_bodies) (hex_of_bytes b.fb_hash), verdict_s (judge_block bs origs hq bh))
+       let v = verdict_s (judge_block bs origs hq bh) in
+       let v = if field impl "sc" <> Some "-" && v = "holds" then "fails:-" else v in
+       (Printf.sprintf "ok %s bh=%s nw=%d ni=%d sc=-" (bodies_obs b.fb_bodies) (hex_of_bytes b.fb_hash) (int_of_nat b.fb_nwits) (int_of_nat b.fb_ninvalid), v)
      | Err -> ((if impl <> ["err"] && array_slices bs = None then "skip impl-accepts-illformed" else "err"), "na")
      | Panic -> ("panic", "na") | OutOfFuel -> ("outoffuel", "na"))
   | ["vblk"; hexs; _] ->
@@ -207,7 +236,9 @@ let run_mode () = run_driver (fun toks impl ->
        let v = (match array_slices bs with
            | Some ([_; inner], _) -> verdict_s (judge_block inner origs hq bh)
            | _ -> "na") in
-       (Printf.sprintf "ok era=%s %s bh=%s" (string_of_n (era_of era)) (bodies_obs b.fb_bodies) (hex_of_bytes b.fb_hash), v)
+       let v = if field impl "sc" <> Some "-" && v = "holds" then "fails:-" else v in
+       (Printf.sprintf "ok era=%s %s bh=%s nw=%d ni=%d sc=-" (string_of_n (era_of era)) (bodies_obs b.fb_bodies) (hex_of_bytes b.fb_hash)
+          (int_of_nat b.fb_nwits) (int_of_nat b.fb_ninvalid), v)
      | Err -> ((if impl <> ["err"] && array_slices bs = None then "skip impl-accepts-illformed" else "err"), "na")
      | Panic -> ("panic", "na") | OutOfFuel -> ("outoffuel", "na"))
   | _ -> ("driver-badcase", "na"))
@@ -734,6 +765,19 @@ let gen_mode seed tier out =
      | 1 -> Printf.fprintf oc "txn %s %s %d %s %s\n" (hex_of_string (body ^ junk)) (hex_of_string wits) (if valid = "\xf5" then 1 else 0)
               (match aux with Some a -> hex_of_string a | None -> "~") (String.concat " " (gen_ops ~wits (body ^ junk) true))
      | _ -> Printf.fprintf oc "fb %s\n" (hex_of_string (if chance 20 then mutate body else body ^ junk)))
+  done;
+  (* stream 3a: the witness set on its own (FixedTxWitnessesSet::from_bytes / add_* / to_bytes) *)
+  for _ = 1 to 30 * scale do
+    let nz = pick_noise () in
+    let wits = gen_wits nz (1 + below 4) in
+    let wits = if chance 12 then mutate wits else wits in
+    let ex = existing_ops wits in
+    let ops = List.concat (List.init (below 4) (fun _ ->
+        match below 5 with
+        | 0 | 1 -> [Printf.sprintf "av:%s:%s" (rand_hex 32) (rand_hex 64)]
+        | 2 -> [Printf.sprintf "ab:%s:%s:%s:a0" (rand_hex 32) (rand_hex 64) (rand_hex 32)]
+        | _ -> (match ex with [] -> [] | l -> [List.nth l (below (List.length l))]))) in
+    Printf.fprintf oc "fws %s %s\n" (hex_of_string wits) (String.concat " " ops)
   done;
   (* stream 3b: the tag state of the body (top-level vs nested sets) decides the form of NEW witness sets;
      every found body is emitted in the eight tagged/untagged combinations of (top-level, pool owners, committee) *)
